@@ -3,6 +3,7 @@ from . import stackprops as sp, stackcommon as sc
 
 ID = "C03"
 FAMILY = "stack"
+RETRY = 2
 RULE = 'pair-verify message sequences for a paired and an unpaired controller over 19 variants (bad signature, unknown name, stale / reordered material, zero / random key, short 0..16, flipped, malformed inner, reflected accessory signature, wrong key lengths, finish first, start only, garbage) followed by probes: plaintext GET must still be refused in plaintext, a later genuine verify must work. non-trivial = a non-genuine finish'
 ASSUMPTIONS = ["symbolic cryptography in the model (forging is impossible by construction of the message alphabet: INT-CTXT of ChaCha20-Poly1305, EUF-CMA of Ed25519, SRP-6a soundness, CDH on Curve25519, HKDF as a random oracle are assumed, not proved); net/http request parsing is modelled as 400-and-close for ciphertext on a plaintext connection; the reference controller's abstract message kinds are realised by concrete builders in harness/cmd/hcdrv/stack.go"]
 TRUSTED = ["reference controller harness/cmd/hcdrv/refctl.go (math/big SRP with the RFC 3526 prime re-derived from pi, crypto/ed25519, x/crypto curve25519 / chacha20poly1305 / hkdf)", "scenario translation ocaml/fam_stack.ml and canonicalisation tools/vlib/props/stackcommon.py"]
